@@ -17,6 +17,7 @@ box.  Clauses:
                     model that reproduces on the real code is still a violation.
 """
 import math
+from fractions import Fraction
 
 import numpy as np
 
@@ -36,7 +37,7 @@ META = {
     'assumptions': ['floats as reals; constants such as np.pi / np.e are the exact rational values of the doubles',
                     '(B) is proved with sound lemma instances (ranges, monotonicity, convexity, exp(t)<=1/(1-t), Taylor enclosures); '
                     'z3 (incl. its nlsat tactic) trusted'],
-    'undecided': ['(B) for Michalewicz, GramacyLee, Schubert, Synthetic1D/2D (need branch-and-bound over transcendental terms); '
+    'undecided': ['(B) for Michalewicz, Schubert, Synthetic1D/2D (need branch-and-bound over transcendental terms beyond what z3 decides here; GramacyLee IS decided that way, config BB-GramacyLee); '
                   '(T) and (O) are still checked for them, and (B) is still attempted as a refutation query'],
 }
 
@@ -207,6 +208,164 @@ def _refute(ctx, name, bad):
                                       'trace_len': len(ctx.trace), 'tentative': True})
 
 
+# ---------------------------------------------------------------------------------------------------------
+# (B) by solver-driven branch and bound (GramacyLee): the real evaluate() runs ONCE on a symbolic
+# point of the whole box, which yields the cost as one term over SIN(...) / EXP(...) applications.  The box is then
+# bisected adaptively; for each cell the solver gets Taylor enclosures of every SIN / EXP application around the
+# (concrete, double) value of its argument at the cell centre and must refute `cell /\ cost beats the optimum`.
+# Every enclosure is a true statement about sin / exp for ALL arguments satisfying its own guard (|t - c| <= 1 resp.
+# <= 1/2, t <= h), the solver itself establishes the guard from the cell, so a wrong centre only costs completeness.
+# A cell that cannot be refuted at the minimum width is handed to the ordinary obligation (model -> replay).
+# ---------------------------------------------------------------------------------------------------------
+LIBM_EPS = Fraction(1, 10 ** 15)     # assumed absolute error of math.sin / math.cos / relative error of math.exp
+
+
+def _term_value(t, point):
+    """double value of a z3 term over the inputs at a concrete point (PI / EULER as math.pi / math.e)."""
+    import z3
+    sub = [(k, ops.rv(Fraction(v))) for k, v in point]
+    sub += [(ops.PI, ops.rv(Fraction(math.pi))), (ops.EULER, ops.rv(Fraction(math.e)))]
+    v = z3.simplify(z3.substitute(t, *sub))
+    if not ops._is_num(v):
+        return None
+    return float(ops.numeral_fraction(v))
+
+
+def _enclosures(ctx, xs, cell):
+    """Sound enclosures of all registered SIN / EXP applications for one cell (list of (lo, hi)): pairs
+    (guard, bound) where `guard -> bound` is a true statement about sin / exp (guard None: unconditional)."""
+    import z3
+    out = []
+    mid = [(x.t, 0.5 * (lo + hi)) for x, (lo, hi) in zip(xs, cell)]
+    corners = [mid]
+    for k in range(len(xs)):
+        for e in (0, 1):
+            corners.append([(x.t, (c[e] if i == k else 0.5 * (c[0] + c[1]))) for i, (x, c) in enumerate(zip(xs, cell))])
+    for arg in ctx.uf_apps.get('trig', []):
+        c = _term_value(arg, mid)
+        if c is None:
+            continue
+        S, C = Fraction(math.sin(c)), Fraction(math.cos(c))
+        d = arg - ops.rv(Fraction(c))
+        poly = ops.rv(S) + ops.rv(C) * d - ops.rv(S / 2) * d * d - ops.rv(C / 6) * d * d * d
+        rem = d * d * d * d / 24 + ops.rv(3 * LIBM_EPS)
+        out.append((z3.And(d >= -1, d <= 1), z3.And(ops.SIN(arg) >= poly - rem, ops.SIN(arg) <= poly + rem)))
+    for arg in ctx.uf_apps.get('exp', []):
+        vals = [v for v in (_term_value(arg, pt) for pt in corners) if v is not None]
+        if not vals:
+            continue
+        # range of the argument over the cell, guessed from centre / face samples and padded; the solver has to
+        # establish the guard ulo <= arg <= uhi from the cell, so a wrong guess only costs completeness
+        pad = 0.5 * (max(vals) - min(vals)) + 1e-9 * (1 + abs(max(vals)))
+        ulo, uhi = min(vals) - pad, max(vals) + pad
+        if max(vals) <= 0 < uhi:
+            uhi = 0.0
+        if uhi < -700:
+            out.append((arg <= ops.rv(Fraction(uhi)), ops.EXP(arg) <= ops.rv(Fraction(1, 10 ** 300))))
+            continue
+        if uhi > 700:
+            continue
+        ulo = max(ulo, -700.0)
+        Elo = Fraction(math.exp(ulo)) * (1 + LIBM_EPS) + Fraction(1, 10 ** 300)
+        Ehi = Fraction(math.exp(uhi)) * (1 + LIBM_EPS) + Fraction(1, 10 ** 300)
+        fl, fh = Fraction(ulo), Fraction(uhi)
+        # convexity: on [ulo, uhi] the graph lies below the chord through (upper roundings of) its end points ...
+        chord = ops.rv(Elo) + ops.rv((Ehi - Elo) / (fh - fl)) * (arg - ops.rv(fl))
+        out.append((z3.And(arg >= ops.rv(fl), arg <= ops.rv(fh)), ops.EXP(arg) <= chord))
+        # ... and everywhere above the tangent at the centre (lower rounding of e^c)
+        c = _term_value(arg, mid)
+        if c is not None and c > -700:
+            Ec = Fraction(math.exp(c)) * (1 - LIBM_EPS)
+            out.append((None, ops.EXP(arg) >= ops.rv(Ec) * (1 + arg - ops.rv(Fraction(c)))))
+    return out
+
+
+def _established(ctx, inside, enclosures):
+    """The bounds whose guard the solver can establish from the cell (guard query: cell /\\ not guard is unsat); the
+    others are passed on as implications.  Keeps the refutation query a conjunction of polynomial inequalities."""
+    import z3
+    out = []
+    for guard, bound in enclosures:
+        if guard is None:
+            out.append(bound)
+            continue
+        res, _m = ctx._query(inside + [z3.Not(guard)])
+        out.append(bound if res == z3.unsat else z3.Implies(guard, bound))
+    return out
+
+
+def piecewise_bound(args):
+    name, modk, kwargs = args['name'], args['mod'], args['kwargs']
+    min_width, max_cells = args.get('min_width', 1e-4), args.get('max_cells', 4000)
+    from artap.individual import Individual
+    prob = _make(name, modk, kwargs)
+    opt = prob.global_optimum
+    direction = _direction(prob)
+
+    def body(ctx):
+        import z3
+        ops.configure(exp_monotone=False, exp_rational=False)
+        ops.sym_pi()
+        ops.sym_e()
+        box = [tuple(p['bounds']) for p in prob.parameters]
+        x = [ctx.real('x%d' % i, lo, hi) for i, (lo, hi) in enumerate(box)]
+        r = prob.evaluate(Individual(x))
+        ctx.check('returns-one-cost', not isinstance(r, (list, tuple)) or len(r) != 1)
+        v = r[0]
+        ctx.output('value', v)
+        bad = (v < opt - TOL) if direction == 'min' else (v > opt + TOL)
+        if not ctx.symbolic or ctx.engine.dry:
+            ctx.check('no-point-beats-documented-optimum(branch-and-bound)', bad)
+            return
+        tb = core.tobool3(bad)
+        work, proved, widest, narrowest = [list(box)], 0, 0.0, float('inf')
+        ctx.solver.set('timeout', 4000)
+        try:
+            while work:
+                cell = work.pop()
+                inside = [z3.And(xi.t >= ops.rv(Fraction(lo)), xi.t <= ops.rv(Fraction(hi))) for xi, (lo, hi) in zip(x, cell)]
+                res, _m = ctx._query(inside + [tb] + _established(ctx, inside, _enclosures(ctx, x, cell)))
+                w = max(hi - lo for lo, hi in cell)
+                if res == z3.unsat:
+                    proved += 1
+                    widest, narrowest = max(widest, w), min(narrowest, w)
+                    continue
+                # a cell the enclosures cannot refute: look at its centre with floats (the cost term evaluated with the real
+                # sin / exp); a centre that beats the optimum is handed to the ordinary obligation, pinned to that point
+                mids = [0.5 * (lo + hi) for lo, hi in cell]
+                try:
+                    fv = core.float_eval(v.t, {str(xi.t): mv for xi, mv in zip(x, mids)})
+                except Exception:
+                    fv = None
+                if fv is not None and ((fv < opt - TOL) if direction == 'min' else (fv > opt + TOL)):
+                    ctx.solver.set('timeout', ctx.engine.query_timeout_ms)
+                    pin = [xi.t == ops.rv(Fraction(mv)) for xi, mv in zip(x, mids)]
+                    for f in pin + _established(ctx, pin, _enclosures(ctx, x, [(mv, mv) for mv in mids])):
+                        ctx.lemma(f)
+                    ctx.check('no-point-beats-documented-optimum(branch-and-bound)', bad, note='centre of cell %r' % (cell,))
+                    return
+                if w <= min_width or proved + len(work) > max_cells:
+                    # not refutable by enclosures: ordinary obligation on this cell (model -> replay on the real code)
+                    ctx.solver.set('timeout', ctx.engine.query_timeout_ms)
+                    for f in inside + _established(ctx, inside, _enclosures(ctx, x, cell)):
+                        ctx.lemma(f)
+                    ctx.check('no-point-beats-documented-optimum(branch-and-bound)', bad, note='cell %r at minimum width' % (cell,))
+                    return
+                k = max(range(len(cell)), key=lambda i: cell[i][1] - cell[i][0])
+                lo, hi = cell[k]
+                m = 0.5 * (lo + hi)
+                for part in ((lo, m), (m, hi)):
+                    work.append([part if i == k else c for i, c in enumerate(cell)])
+        finally:
+            ctx.solver.set('timeout', ctx.engine.query_timeout_ms)
+        ctx.engine.stats.obligations += proved
+        ctx.engine.stats.discharged += proved
+        ctx.reach('no-point-beats-documented-optimum(branch-and-bound)')
+        ctx.note('branch-and-bound', {'cells_refuted': proved, 'widest_cell': widest, 'narrowest_cell': narrowest,
+                                      'cover': [list(b) for b in box]})
+    return body
+
+
 def _schwefel_lemmas(ctx, x):
     """Enclosure of c*sin(sqrt|c|): shift identities sin u = cos(u - pi/2 - 2 pi k) for the
     k that matter on u in [0, sqrt 500], on top of the Taylor bounds of the library."""
@@ -323,4 +482,11 @@ def configs(tier):
                         'weight': 1, 'allow_no_reach': False, 'engine': {'validate': 2}})
             out.append({'name': 'S-' + tag, 'task': 'concrete_box_samples', 'args': {'name': name, 'mod': modk, 'kwargs': kw},
                         'weight': 1, 'engine': {'validate': 0}})
+    # (B) for GramacyLee by solver-driven branch and bound.  (Synthetic1D -- 15 Gaussians, margin 6.6e-4 between the true
+    # maximum 3.23034 and documented optimum + tolerance -- was tried with chord / tangent enclosures: the cell queries time
+    # out in z3's NRA, so its clause (B) stays undecided.)
+    for name, modk in (('GramacyLee', 'BF'),):
+        out.append({'name': 'BB-' + name, 'task': 'piecewise_bound', 'args': {'name': name, 'mod': modk, 'kwargs': {}},
+                    'weight': 8, 'allow_no_reach': False,
+                    'engine': {'validate': 3, 'first_timeout_s': 4, 'query_timeout_s': 30, 'final_timeout_s': 40}})
     return out
